@@ -1733,6 +1733,10 @@ impl Tree {
 
 impl Drop for Tree {
 	fn drop(&mut self) {
+		// `Tree` is `Clone`: only the last handle shuts the store down.
+		if Arc::strong_count(&self.core) > 1 {
+			return;
+		}
 		#[cfg(not(target_arch = "wasm32"))]
 		{
 			// Native environment - use tokio
